@@ -353,13 +353,17 @@ def custom_unit_options_case(draw):
     base = draw(st.sampled_from(["m", "cm", "s"]))
     opts = draw(st.lists(st.sampled_from([1, 2, 3, 4, 10]), min_size=1, max_size=3, unique=True))
     ok = draw(st.booleans())
-    val = (draw(st.sampled_from(opts)) if ok else max(opts) + 1.5) * fac
-    lines = [f"$unit len = {fac} {base}", f"x float = {fmt(val)} {base}"]
+    is_int = draw(st.booleans())
+    if is_int:
+        # an integer node: the custom unit is a whole number of base units, the value a whole number as well
+        fac = draw(st.sampled_from([2, 5, 12]))
+    val = (draw(st.sampled_from(opts)) if ok else max(opts) + (1 if is_int else 1.5)) * fac
+    lines = [f"$unit len = {fac} {base}", (f"x int = {int(val)} {base}" if is_int else f"x float = {fmt(val)} {base}")]
     if draw(st.booleans()):
         lines += [f"  = {o} [len]" for o in opts]
     else:
         lines.append("  !options [" + ",".join(str(o) for o in opts) + "] [len]")
-    return {"kind": "lines", "lines": lines, "expect_ok": ok, "what": "options_in_custom_unit"}
+    return {"kind": "lines", "lines": lines, "expect_ok": ok, "what": "options_in_custom_unit" + ("_int_node" if is_int else "")}
 
 
 @st.composite
